@@ -58,6 +58,14 @@ func traceProblem(sc *engine.Scenario, tr *engine.Trace, r *Result, hangIsViolat
 	return false
 }
 
+// dumpHang keeps the scenario of a hung run in $VERIF_HANGDUMP (debugging aid).
+func dumpHang(sc *engine.Scenario, tr *engine.Trace) {
+	if d := os.Getenv("VERIF_HANGDUMP"); d != "" && tr.Hang != nil {
+		b, _ := json.Marshal(map[string]interface{}{"case": sc, "hang": tr.Hang})
+		_ = os.WriteFile(fmt.Sprintf("%s/hang-%x.json", d, vstat.HashBytes(b)), b, 0o644)
+	}
+}
+
 func sortedInts(m map[int]bool) []int {
 	var o []int
 	for k := range m {
